@@ -53,6 +53,31 @@ func specAccept(key string) string {
 
 // specSplitHead splits an HTTP/1.1 message head into its lines (RFC 7230 3):
 // ok is false unless the head ends with an empty line and holds nothing after it.
+// specPMDBoth: the extension header value announces permessage-deflate with
+// exactly the two no_context_takeover parameters (RFC 7692: parameter order
+// and optional white space are not significant). For concrete values.
+func specPMDBoth(v string) bool {
+	var parts []string
+	cur := ""
+	for i := 0; i < len(v); i++ {
+		switch v[i] {
+		case ';':
+			parts = append(parts, cur)
+			cur = ""
+		case ' ', '\t':
+		default:
+			cur += string(v[i : i+1])
+		}
+	}
+	parts = append(parts, cur)
+	if len(parts) != 3 || !strings.EqualFold(parts[0], "permessage-deflate") {
+		return false
+	}
+	s := parts[1] == "server_no_context_takeover" || parts[2] == "server_no_context_takeover"
+	c := parts[1] == "client_no_context_takeover" || parts[2] == "client_no_context_takeover"
+	return s && c
+}
+
 func specSplitHead(b []byte) (lines []string, ok bool) {
 	start := 0
 	for i := 0; i+1 < len(b); i++ {
@@ -373,14 +398,27 @@ func vfH_upgrade_logic() {
 			wantProto = appProto
 		}
 		compress := u.EnableCompression && in.offersPMD
+		nExt := 0
 		if compress {
-			want = append(want, "Sec-WebSocket-Extensions: permessage-deflate; server_no_context_takeover; client_no_context_takeover")
+			nExt = 1
 		}
 		if appHdrKey != "" {
 			// control bytes in application values are neutralised; the line is still one line
 			want = append(want, appHdrKey+": "+vfScrub(appHdrVal))
 		}
-		got := lines[1:]
+		// the extension line is judged by meaning (parameter order is free): exactly
+		// one, announcing both no_context_takeover parameters, iff compression was agreed
+		var got []string
+		seenExt := 0
+		for _, gl := range lines[1:] {
+			if strings.EqualFold(vfHeaderName(gl), "sec-websocket-extensions") {
+				seenExt++
+				vfAssert(specPMDBoth(gl[len(vfHeaderName(gl))+1:]), "c15-101-announces-both-no-context-takeover-parameters")
+				continue
+			}
+			got = append(got, gl)
+		}
+		vfAssert(seenExt == nExt, "c12-extension-announced-iff-offered-and-enabled")
 		if in.protoOffer == "chat, superchat" {
 			// offered and supported: either is acceptable to the property
 			vfAssert(len(got) == len(want)+1, "c12-no-extra-lines-in-101")
